@@ -51,23 +51,26 @@ def run(tier, seed, open_findings):
         }
         fails = []; n = 0
         main = os.path.join(base, 'main.xsd')
-        combos = [(m_, me, sl, True) for m_, me, sl in itertools.product(['all', 'none', 'local', 'remote', 'sandbox'], ['include', 'import', 'redefine', 'hint'], SPELL.items())]
+        combos = [(m_, me, sl, True) for m_, me, sl in itertools.product(['all', 'none', 'local', 'remote', 'sandbox'], ['include', 'import', 'redefine', 'hint', 'locations'], SPELL.items())]
         # the sandbox root taken from the location of the main schema (no explicit base_url): every reference mechanism must inherit it
-        combos += [('sandbox', me, sl, False) for me, sl in itertools.product(['include', 'import', 'redefine'], SPELL.items())]
+        combos += [('sandbox', me, sl, False) for me, sl in itertools.product(['include', 'import', 'redefine', 'hint', 'locations'], SPELL.items())]
         for mode, mech, (sp, loc), with_base in combos:
             n += 1; bkw = dict(base_url=base) if with_base else {}
-            tag = {'include': f'<xs:include schemaLocation="{loc}"/>', 'redefine': f'<xs:redefine schemaLocation="{loc}"/>', 'hint': '',
+            tag = {'include': f'<xs:include schemaLocation="{loc}"/>', 'redefine': f'<xs:redefine schemaLocation="{loc}"/>', 'hint': '', 'locations': '',
                    'import': f'<xs:import namespace="urn:i" schemaLocation="{loc.replace("inc.xsd", "imp.xsd")}"/>'}[mech]
             open(main, 'w').write(f'<xs:schema {XS}>{tag}<xs:element name="r"><xs:complexType><xs:sequence><xs:any minOccurs="0" processContents="lax"/></xs:sequence>'
                                   f'<xs:anyAttribute processContents="skip"/></xs:complexType></xs:element></xs:schema>')
             _events.clear(); outcome = 'ok'
             try:
                 opener = urllib.request.build_opener(Stub)
-                s = xmlschema.XMLSchema10(main, allow=mode, opener=opener, **bkw)
-                if mech == 'hint':
-                    doc = (f'<r xmlns:xsi="http://www.w3.org/2001/XMLSchema-instance" xmlns:i="urn:i" xsi:schemaLocation="urn:i {loc.replace("inc.xsd", "imp.xsd")}"><i:y/></r>')
+                # 'locations': the location comes in through the locations argument; a location refused when the schema is built is asked for again when a wildcard meets the namespace
+                lkw = dict(locations={'urn:i': loc.replace('inc.xsd', 'imp.xsd')}) if mech == 'locations' else {}
+                s = xmlschema.XMLSchema10(main, allow=mode, opener=opener, **bkw, **lkw)
+                if mech in ('hint', 'locations'):
+                    hint = f' xsi:schemaLocation="urn:i {loc.replace("inc.xsd", "imp.xsd")}"' if mech == 'hint' else ''
+                    doc = (f'<r xmlns:xsi="http://www.w3.org/2001/XMLSchema-instance" xmlns:i="urn:i"{hint}><i:y/></r>')
                     docp = os.path.join(base, 'doc.xml'); open(docp, 'w').write(doc)
-                    list(s.iter_errors(xmlschema.XMLResource(docp, allow=mode, base_url=base, opener=opener), use_location_hints=True))
+                    list(s.iter_errors(xmlschema.XMLResource(docp, allow=mode, opener=opener, **bkw), use_location_hints=True))
             except XMLSchemaException as e: outcome = type(e).__name__
             except Exception as e: outcome = 'OTHER:' + type(e).__name__ + ': ' + str(e)[:80]
             own = {os.path.realpath(main), os.path.realpath(os.path.join(base, 'doc.xml'))}
@@ -112,20 +115,29 @@ def run(tier, seed, open_findings):
                                       observed=dict(outcome=outcome, fetched=[(k, p_.replace(root, '<root>')) for k, p_ in viol]), required='no fetch outside the allowed class; only library exceptions'))
         # document-level API: the schema is built by the API itself from the instance's location hint, with the caller's allow mode
         hint_doc = os.path.join(base, 'hinted.xml')
-        for mode, (sp, loc) in itertools.product(['all', 'none', 'local', 'remote', 'sandbox'], SPELL.items()):
-            n += 1
+        APIS = {'is_valid': lambda d, **kw: xmlschema.is_valid(d, **kw), 'iter_errors': lambda d, **kw: list(xmlschema.iter_errors(d, **kw)),
+                'to_dict': lambda d, **kw: xmlschema.to_dict(d, validation='lax', **kw), 'XmlDocument': lambda d, **kw: xmlschema.XmlDocument(d, **kw),
+                'fetch_schema_locations': lambda d, **kw: xmlschema.fetch_schema_locations(d, **kw)}
+        doc_combos = [(m_, 'is_valid', sl, True) for m_, sl in itertools.product(['all', 'none', 'local', 'remote', 'sandbox'], SPELL.items())]
+        # the other entry points, and the sandbox root taken from the location of the instance (no explicit base_url)
+        doc_combos += [('sandbox', a, sl, wb) for a, sl, wb in itertools.product(APIS, SPELL.items(), [True, False]) if not (a == 'is_valid' and wb)]
+        for mode, api, (sp, loc), with_base in doc_combos:
+            n += 1; bkw = dict(base_url=base) if with_base else {}
             open(hint_doc, 'w').write(f'<x xmlns:xsi="http://www.w3.org/2001/XMLSchema-instance" xsi:noNamespaceSchemaLocation="{loc}"/>')
             _events.clear(); outcome = 'ok'
             try:
                 opener = urllib.request.build_opener(Stub)
-                xmlschema.is_valid(hint_doc, allow=mode, base_url=base, opener=opener)
+                if api == 'fetch_schema_locations': APIS[api](hint_doc, allow=mode, **bkw)
+                else: APIS[api](hint_doc, allow=mode, opener=opener, **bkw)
             except XMLSchemaException as e: outcome = type(e).__name__
             except Exception as e: outcome = 'OTHER:' + type(e).__name__ + ': ' + str(e)[:80]
             own = {os.path.realpath(hint_doc)}
             viol = [(k, p) for k, p in _events if not (k == 'open' and p in own) and not allowed(mode, 'open' if k == 'open' else 'remote', p, base)]
             if any(k == 'open' and p in own for k, p in _events) and not allowed(mode, 'open', hint_doc, base): viol.append(('open', 'INSTANCE'))
             if viol or outcome.startswith('OTHER'):
-                fails.append(dict(case=dict(mode=mode, mechanism='document-api-hint', spelling=sp, location=loc.replace(root, '<root>')),
+                case = dict(mode=mode, mechanism='document-api-hint', spelling=sp, location=loc.replace(root, '<root>'))
+                if api != 'is_valid' or not with_base: case.update(api=api, explicit_base_url=with_base)
+                fails.append(dict(case=case,
                                   observed=dict(outcome=outcome, fetched=[(k, p.replace(root, '<root>')) for k, p in viol]), required='no fetch outside the allowed class; only library exceptions'))
         # a resource / document object re-used for another source: parse() rebuilds the object with its own arguments, the allow mode included
         inst = os.path.join(base, 'inst.xml'); open(inst, 'w').write('<r/>')
